@@ -23,3 +23,6 @@ import QRV.Props.C18
 import QRV.Props.C03QR
 import QRV.Props.C08Ext
 import QRV.Props.C06RMQR
+import QRV.Props.C06Micro
+import QRV.Props.C04Ext
+import QRV.Props.C05Ext
